@@ -235,8 +235,10 @@ Definition line_placed (s : syntax) (x : lid * option str) : Prop :=
   (fst x < length (heap s))%nat /\
   hl_inb (sget s (fst x)) = match snd x with None => false | Some _ => true end.
 
+(* a block header is one token; a LineBlock never carries end-of-line comments of its own
+   (the parser attaches a comment after ")" to the RParen, new blocks have none) *)
 Definition block_ok (st : stmt) : Prop :=
-  match st with SBlock b => length (hb_tok b) = 1%nat | _ => True end.
+  match st with SBlock b => length (hb_tok b) = 1%nat /\ c_suffix (hb_com b) = [] | _ => True end.
 
 Record SyntaxOk (s : syntax) : Prop := {
   so_nodup : NoDup (map fst (tree_lines s));
@@ -280,7 +282,7 @@ Definition syntax_okb (s : syntax) : bool :=
   && forallb (fun x => (fst x <? length (heap s))%nat
                        && Bool.eqb (hl_inb (sget s (fst x))) (match snd x with None => false | Some _ => true end))
              (tree_lines s)
-  && forallb (fun st => match st with SBlock b => Nat.eqb (length (hb_tok b)) 1 | _ => true end) (stmts s).
+  && forallb (fun st => match st with SBlock b => Nat.eqb (length (hb_tok b)) 1 && nilb (c_suffix (hb_com b)) | _ => true end) (stmts s).
 
 Definition ent_okb (e : ent) : bool :=
   match en_syn e with Some _ => en_live e | None => negb (en_live e) end.
